@@ -168,6 +168,18 @@ func (c c03) Gen(rt *rapid.T, thorough bool) any {
 	if s.Mode == "builtin" {
 		s.AfterCycle = rapid.IntRange(0, 2).Draw(rt, "after_cycle") == 0
 	}
+	if !c.ack && rapid.IntRange(0, map[bool]int{false: 600, true: 100}[thorough]).Draw(rt, "one_slow_among_many") == 37 { // (not 0: rapid favours the ends of a range)
+		// one event whose formatting is still under way while another task makes more than a
+		// thousand complete log calls: nothing the many do may touch the buffer of the one
+		s.Mode, s.Direct, s.DLayout, s.Sys, s.AdvanceMs = "direct", "console", rapid.SampledFrom([]string{"TextLayout", "JSONLayout"}).Draw(rt, "slow_layout"), nil, 0
+		s.Fast, s.RawEvery, s.AfterCycle = false, 0, false
+		s.Knobs.MaxSteps, s.Knobs.Strategy, s.Knobs.Starve, s.Knobs.Chunks, s.Knobs.Delay = 600000, 0, nil, 1, 0
+		many := make([]EvOp, 1100)
+		for i := range many {
+			many[i] = EvOp{Kind: i % 5, Size: 0}
+		}
+		s.Ops = [][]EvOp{{{Kind: 0, Size: 8, Ctx: 2 | 64}}, many}
+	}
 	if c.ack && s.Mode == "refresh" {
 		s.RawEvery = rapid.SampledFrom([]int{0, 0, 1, 2}).Draw(rt, "raw_every")
 	}
